@@ -1,4 +1,5 @@
 import MosnVerif.Lemmas.StreamTable
+import MosnVerif.Lemmas.Correlate
 import MosnVerif.Model.StreamTableSpec
 /-!
 # C02 — request/response correlation on an xprotocol client stream connection (property theorems only)
@@ -155,5 +156,180 @@ example : (gen .tars 2147483647).2 = 18446744071562067968 := by decide
 -- an Exclusive (ping-pong) history
 example : Exclusive (init .bolt 0) [.newStream false, .reply 1 0, .newStream false, .resetStream 1, .newStream false] :=
   exclusive_of_B _ _ (by decide)
+
+
+/-! ## end to end: downstream connection → proxy → upstream connection and back (`Model/Correlate.lean`)
+
+N exchanges share one downstream and one upstream connection. Every theorem quantifies over every protocol's id
+generator, every start value of the upstream counter and EVERY list of events {request decoded (any client id, any
+token), forward (first try or retry), upstream reply frame with any id and payload in any order, try given up for a
+retry, local error reply before or after the request was forwarded (timeouts, retries used up, resets, no host),
+upstream connection reset}. Where the request id of a written frame comes from is regenerated (`Gen/StreamRestore`). -/
+section EndToEnd
+open MosnVerif.Model.Correlate hiding step run init
+open MosnVerif.Gen.StreamRestore
+
+def reachE (p : Proto) (base : Int) (evs : List Ev) : Sys := Model.Correlate.run (Model.Correlate.init p base) evs
+
+/-- **id restoration** (about the regenerated placement of `SetRequestId`): whatever frame an xprotocol stream is handed
+— a response decoded from the upstream, the request frame object for a local (hijack) reply, the request frame to be
+forwarded — and whatever request id that frame currently carries (the request frame object carries the UPSTREAM id
+once it has been forwarded), the frame the stream writes carries the stream's own id. -/
+theorem id_restoration (direction sid streamType frameId : Int) (withData : Bool) :
+    writtenId direction sid streamType frameId withData = sid := written_restores direction sid streamType frameId withData
+
+/-- **end_to_end_correlation**: every frame written on the downstream connection was written for an exchange `k` of
+that connection, carries exactly the request id the client used for `k`, and when it has a payload `t`, then `t` is what
+the upstream stream object `w` received in the (one) reply frame carrying `w`'s own id, where `w` is a stream object
+opened for exchange `k` and the request frame that went out under that id carried `k`'s token: the payload is the
+upstream's reply to the request derived from `k`. Error replies carry no payload (`via = none`). -/
+theorem end_to_end_correlation (p : Proto) (base : Int) (evs : List Ev) (f : DFrame) :
+    let s := reachE p base evs
+    f ∈ s.down →
+      f.ex < s.nE ∧ f.id = (s.ex f.ex).did ∧ f.pay ≠ .mixed ∧
+      ∀ t, f.pay = .ok t → ∃ w, f.via = some w ∧ w < s.up.nW ∧ s.owner w = f.ex ∧
+        (s.up.waiter w).got = [((s.up.waiter w).id, t)] ∧
+        s.wire[w]? = some ((s.up.waiter w).id, (s.ex f.ex).tok) := by
+  intro s hf
+  have h : Inv s p (u64 base) := inv_run (inv_init p base) evs
+  have ⟨a, b, _, d, e⟩ := h.frames f hf
+  refine ⟨a, b, d, ?_⟩
+  intro t ht
+  obtain ⟨w, w1, w2, w3, w4⟩ := e t ht
+  exact ⟨w, w1, w2, w3, w4, by rw [← w3]; exact h.wire w w2⟩
+
+/-- **each exchange gets at most one reply** (answer or error, never both, never twice) -/
+theorem at_most_one_reply (p : Proto) (base : Int) (evs : List Ev) (k : Nat) :
+    ((reachE p base evs).down.filter (fun f => f.ex == k)).length ≤ 1 := by
+  have h : Inv (reachE p base evs) p (u64 base) := inv_run (inv_init p base) evs
+  have hn := h.exNodup
+  generalize (reachE p base evs).down = l at hn
+  induction l with
+  | nil => simp
+  | cons a r ih =>
+    simp only [List.map_cons, List.nodup_cons] at hn
+    simp only [List.filter_cons]
+    split
+    · rename_i hak
+      have hr : r.filter (fun f => f.ex == k) = [] := by
+        rw [List.filter_eq_nil_iff]
+        intro f hf hfk
+        apply hn.1
+        have e1 : a.ex = k := by simpa using hak
+        have e2 : f.ex = k := by simpa using hfk
+        rw [e1, ← e2]; exact List.mem_map_of_mem hf
+      simp [hr]
+    · exact ih hn.2
+
+/-- **fresh upstream ids**: the w-th request frame written on the upstream connection carries the id of the w-th
+allocation of the connection's generator (never the client's id) and the token of the exchange it was opened for … -/
+theorem upstream_fresh_ids (p : Proto) (base : Int) (evs : List Ev) (w : Nat) :
+    let s := reachE p base evs
+    w < s.up.nW → s.wire[w]? = some (idAt p (u64 base) w, (s.ex (s.owner w)).tok) ∧ s.owner w < s.nE := by
+  intro s hw
+  have h : Inv s p (u64 base) := inv_run (inv_init p base) evs
+  exact ⟨by rw [← h.idinv.ids w hw]; exact h.wire w hw, h.ownLt w hw⟩
+
+/-- … so two requests in flight upstream never share an id below one generator period -/
+theorem upstream_ids_distinct (p : Proto) (base : Int) (v w : Nat) (hvw : v < w) (hper : w - v < period p) :
+    idAt p (u64 base) v ≠ idAt p (u64 base) w := idAt_distinct p (u64 base) (u64_range base) v w hvw hper
+
+/-- **stale_reply_dropped**: once the try in flight of exchange `k` was ended locally — by a timeout / reset error reply
+(`fail`) or given up for a retry (`abandon`) — a late upstream reply carrying the id of that try changes NOTHING: no
+frame downstream, no state. (A stream reset by a connection reset stays in the table, as in the code; a reply for it is
+handed to a listener that ignores it — `at_most_one_reply` covers that case.) -/
+theorem stale_reply_dropped (s : Sys) (k w : Nat) (hk : k < s.nE) (hd : (s.ex k).done = false)
+    (hc : (s.ex k).cur = some w) (hw : w < s.up.nW) (hcr : (s.up.waiter w).connReset = false) (tok : Nat) (body : Bool) :
+    Model.Correlate.step (Model.Correlate.step s (.fail k)) (.reply (s.up.waiter w).id tok body) = Model.Correlate.step s (.fail k) ∧
+    Model.Correlate.step (Model.Correlate.step s (.abandon k)) (.reply (s.up.waiter w).id tok body) =
+      Model.Correlate.step s (.abandon k) := by
+  have hl := lookup_after_reset s.up w hw hcr
+  constructor
+  · have h1 : (Model.Correlate.step s (.fail k)).up = Model.StreamTable.step s.up (.resetStream w) := by
+      simp [Model.Correlate.step, hk, hd, hc]
+    have h2 : lookup (Model.Correlate.step s (.fail k)).up.table (responseKey (s.up.waiter w).id) = none := by
+      rw [h1, responseKey_eq]; exact hl
+    generalize Model.Correlate.step s (.fail k) = s' at h2
+    simp [Model.Correlate.step, h2]
+  · have h1 : (Model.Correlate.step s (.abandon k)).up = Model.StreamTable.step s.up (.resetStream w) := by
+      simp [Model.Correlate.step, hk, hd, hc]
+    have h2 : lookup (Model.Correlate.step s (.abandon k)).up.table (responseKey (s.up.waiter w).id) = none := by
+      rw [h1, responseKey_eq]; exact hl
+    generalize Model.Correlate.step s (.abandon k) = s' at h2
+    simp [Model.Correlate.step, h2]
+
+/-- **nobody receives someone else's answer**: when the client's request ids are pairwise distinct (its own
+obligation), a frame carrying the id of exchange `k` WAS written for `k` … -/
+theorem client_attribution (p : Proto) (base : Int) (evs : List Ev) (f : DFrame) (k : Nat) :
+    let s := reachE p base evs
+    (∀ i j, i < s.nE → j < s.nE → (s.ex i).did = (s.ex j).did → i = j) →
+    f ∈ s.down → k < s.nE → f.id = (s.ex k).did → f.ex = k := by
+  intro s hinj hf hk hid
+  have h : Inv s p (u64 base) := inv_run (inv_init p base) evs
+  have ⟨a, b, _⟩ := h.frames f hf
+  exact hinj _ _ a hk (by rw [← b, hid])
+
+/-- … and no request id is answered twice on the downstream connection. -/
+theorem reply_ids_distinct (p : Proto) (base : Int) (evs : List Ev) :
+    let s := reachE p base evs
+    (∀ i j, i < s.nE → j < s.nE → (s.ex i).did = (s.ex j).did → i = j) → ((framesOf s).map (·.1)).Nodup := by
+  intro s hinj
+  have h : Inv s p (u64 base) := inv_run (inv_init p base) evs
+  have hn := h.exNodup
+  unfold framesOf
+  rw [List.map_map]
+  unfold List.Nodup at hn ⊢
+  rw [List.pairwise_map] at hn ⊢
+  refine List.Pairwise.imp_of_mem ?_ hn
+  intro a b ha hb hab heq
+  apply hab
+  have ⟨a1, a2, _⟩ := h.frames a ha
+  have ⟨b1, b2, _⟩ := h.frames b hb
+  simp only [Function.comp] at heq
+  exact hinj _ _ a1 b1 (by rw [← a2, ← b2, heq])
+
+/-- the executable end-to-end predicate (what the harness evaluates on the frames the real client received) holds of
+everything the model can produce, for clients with pairwise distinct ids and upstreams that answer what they were asked -/
+theorem e2e_spec_holds_on_model (p : Proto) (base : Int) (evs : List Ev) (hh : Honest (Model.Correlate.init p base) evs) :
+    let s := reachE p base evs
+    (∀ i j, i < s.nE → j < s.nE → (s.ex i).did = (s.ex j).did → i = j) → specE2E (reqsOf s) (framesOf s) = true := by
+  intro s hinj
+  have h : Inv s p (u64 base) := inv_run (inv_init p base) evs
+  unfold specE2E
+  simp only [Bool.and_eq_true, List.all_eq_true, List.any_eq_true, decide_eq_true_eq]
+  refine ⟨?_, reply_ids_distinct p base evs hinj⟩
+  intro x hx
+  simp only [framesOf, List.mem_map] at hx
+  obtain ⟨f, hf, rfl⟩ := hx
+  have ⟨a, b, _, d, _⟩ := h.frames f hf
+  refine ⟨((s.ex f.ex).did, (s.ex f.ex).tok), ?_, ?_⟩
+  · simp only [reqsOf, List.mem_map, List.mem_range]; exact ⟨f.ex, a, rfl⟩
+  · simp only [answers, Bool.and_eq_true, beq_iff_eq]
+    refine ⟨b.symm, ?_⟩
+    cases hp : f.pay with
+    | ok t => simp; exact token_echo p base evs hh f t hf hp
+    | err => rfl
+    | mixed => exact absurd hp d
+
+/-! ### non-vacuity (end to end) -/
+-- three exchanges with client ids 7, 8, 9 on an upstream connection whose counter stands at 6 (upstream ids 7, 8, 9
+-- in forwarding order 2, 0, 1): replies in a third order, exchange 1 times out and its late reply is dropped
+def exRun : List Ev := [.request 7 100 true, .request 8 101 true, .request 9 102 true,
+  .forward 2, .forward 0, .forward 1, .reply 8 100 true, .fail 1, .reply 9 101 true, .reply 7 102 true, .reply 7 102 true]
+example : framesOf (reachE .bolt 6 exRun) = [(7, .ok 100), (8, .err), (9, .ok 102)] ∧
+    (reachE .bolt 6 exRun).wire = [(7, 102), (8, 100), (9, 101)] := by decide
+example : honestB (Model.Correlate.init .bolt 6) exRun = true ∧ specE2E (reqsOf (reachE .bolt 6 exRun)) (framesOf (reachE .bolt 6 exRun)) = true := by
+  decide
+-- a retry: the first try is given up, the retry gets a fresh id, the late answer to the first try is dropped
+example : framesOf (reachE .bolt 0 [.request 50 1 true, .forward 0, .abandon 0, .forward 0, .reply 1 1 true, .reply 2 1 true]) = [(50, .ok 1)] ∧
+    (reachE .bolt 0 [.request 50 1 true, .forward 0, .abandon 0, .forward 0, .reply 1 1 true, .reply 2 1 true]).wire = [(1, 1), (2, 1)] := by decide
+-- the hypotheses of stale_reply_dropped are satisfiable
+example : let s := reachE .bolt 0 [.request 50 1 true, .forward 0]
+    0 < s.nE ∧ (s.ex 0).done = false ∧ (s.ex 0).cur = some 0 ∧ 0 < s.up.nW ∧ (s.up.waiter 0).connReset = false := by decide
+-- what the seeded change does: a hijack reply that takes its id from the request frame object instead of the stream
+-- carries the UPSTREAM id once the request was forwarded (id operations `[copyRequestId]` instead of `[setStreamId]`)
+example : applyOps false 7 9 0 [.copyRequestId] = 9 ∧ applyOps false 7 9 0 [.setStreamId] = 7 := by decide
+
+end EndToEnd
 
 end MosnVerif.Props.C02
